@@ -59,8 +59,7 @@ struct Sh {
         }
         return Vec3(NAN);
     }
-    // exact distance from p to the surface (closed forms; ellipsoid by bisection of the secular equation in long double,
-    // generic p only); NaN if not available
+    // exact distance from p to the surface (closed forms; ellipsoid: all KKT candidates of the secular problem in long double)
     double exactDist(const Vec3& p) const {
         switch (k) {
         case HS:  return std::abs(p[0]);
@@ -71,13 +70,27 @@ struct Sh {
                     if (dx <= 0 && dy <= 0 && dz <= 0) return std::min(-dx, std::min(-dy, -dz));
                     double ex = std::max(dx, 0.0), ey = std::max(dy, 0.0), ez = std::max(dz, 0.0); return std::sqrt(ex*ex + ey*ey + ez*ez); }
         case ELL: {
-            if (p[0] == 0 || p[1] == 0 || p[2] == 0) return NAN;
-            long double A[3] = {(long double)a*a, (long double)b*b, (long double)c*c}, m = std::min(A[0], std::min(A[1], A[2]));
-            auto F = [&](long double t) { long double s = 0; for (int i = 0; i < 3; ++i) { long double q = A[i]*p[i]/(t + A[i]); s += q*q/A[i]; } return s - 1; };
-            long double lo = -m, hi = 1; while (F(hi) > 0) hi = 2*hi + 1;
-            for (int it = 0; it < 300; ++it) { long double mid = 0.5L*(lo + hi); if (F(mid) > 0) lo = mid; else hi = mid; }
-            long double t = 0.5L*(lo + hi), d2 = 0; for (int i = 0; i < 3; ++i) { long double q = p[i] - A[i]*p[i]/(t + A[i]); d2 += q*q; }
-            return (double)std::sqrt(d2);
+            // all KKT candidates in long double.  Coordinates that are exactly zero stay zero in the "regular" candidate
+            // (largest root of the secular equation reduced to the non-zero coordinates); in addition, for every zero
+            // coordinate i the multiplier t = -a_i^2 gives a candidate with x_i != 0 (inside the evolute).
+            long double A[3] = {(long double)a*a, (long double)b*b, (long double)c*c}; bool nz[3] = {p[0] != 0, p[1] != 0, p[2] != 0};
+            long double bestD2 = INFINITY;
+            if (nz[0] || nz[1] || nz[2]) {
+                long double m = INFINITY; for (int i = 0; i < 3; ++i) if (nz[i]) m = std::min(m, A[i]);
+                auto F = [&](long double t) { long double q2 = 0; for (int i = 0; i < 3; ++i) if (nz[i]) { long double q = A[i]*p[i]/(t + A[i]); q2 += q*q/A[i]; } return q2 - 1; };
+                long double lo = -m, hi = 1; while (F(hi) > 0) hi = 2*hi + 1;
+                for (int it = 0; it < 300; ++it) { long double mid = 0.5L*(lo + hi); if (F(mid) > 0) lo = mid; else hi = mid; }
+                long double t = 0.5L*(lo + hi), d2 = 0; for (int i = 0; i < 3; ++i) if (nz[i]) { long double q = p[i] - A[i]*p[i]/(t + A[i]); d2 += q*q; }
+                bestD2 = d2;
+            }
+            for (int i = 0; i < 3; ++i) if (!nz[i]) {
+                long double rest = 1, d2 = 0; bool ok = true;
+                for (int j = 0; j < 3; ++j) if (j != i && nz[j]) { if (A[j] == A[i]) { ok = false; break; } long double x = A[j]*p[j]/(A[j] - A[i]); rest -= x*x/A[j]; d2 += (p[j] - x)*(p[j] - x); }
+                if (!ok || rest < 0) continue;
+                d2 += A[i] * rest;            // x_i^2 = a_i^2 * rest, p_i = 0
+                bestD2 = std::min(bestD2, d2);
+            }
+            return (double)std::sqrt(bestD2);
         }
         }
         return NAN;
@@ -104,12 +117,13 @@ static void nearestPredicates(const Sh& s, const ContactGeometry* geo, const std
     // (1) on the surface (a non-finite point fails here and nothing else is evaluated for it)
     vh::P("on_surface", key(s, "findNearestPoint", cls, "on_surface"), finite3(pt) ? std::abs(s.f(pt)) / L : NAN, surfTol);
     if (!finite3(pt)) return;
+    const bool onSurf = std::abs(s.f(pt)) / L <= surfTol;
     // (2) no sampled surface point is nearer; and agrees with the exact distance where known
     double d = (p - pt).norm(), best = INFINITY;
     for (int i = 0; i < 600; ++i) best = std::min(best, (p - s.sample(g, p)).norm());
     vh::P("minimal_sampled", key(s, "findNearestPoint", cls, "minimal"), (d - best) / L, 1e-9);
     double ex = s.exactDist(p);
-    if (std::isfinite(ex))
+    if (std::isfinite(ex) && onSurf)       // (the distance of a point that is not on the surface says nothing: on_surface has failed already)
         vh::P("minimal_exact", key(s, "findNearestPoint", cls, "exact_distance"), std::abs(d - ex) / L, surfTol);
     // (3) inside flag = sign of the implicit function (outside a band around the surface)
     if (haveFlag && std::abs(s.f(p)) > 1e-9 * L)
@@ -646,20 +660,46 @@ static void degenerate(vh::Rng& g, long n) {
         caseRay(CYL, "from_axis", {r, 0, 0, z, 1, 0, 0});
         caseRay(CYL, "tangent", {r, -2 * r, r, 0, 1, 0, 0});
         caseVal(CYL, "on_axis", {r, 0, 0, z});
-        // ---- ellipsoid (a > b > c): centre, axes and symmetry planes, inside / outside the evolute
-        caseNearest(ELL, "center", {a[0], a[1], a[2], 0, 0, 0});
-        caseNearest(ELL, "major_axis_inside_evolute", {a[0], a[1], a[2], 0.1 * (a[0] - a[1]*a[1]/a[0]) * 0.3, 0, 0});
-        caseNearest(ELL, "major_axis_near_tip", {a[0], a[1], a[2], 0.98 * a[0], 0, 0});
-        caseNearest(ELL, "major_axis_outside", {a[0], a[1], a[2], 1.7 * a[0], 0, 0});
-        caseNearest(ELL, "minor_axis_inside", {a[0], a[1], a[2], 0, 0, 0.4 * a[2]});
-        caseNearest(ELL, "minor_axis_outside", {a[0], a[1], a[2], 0, 0, 1.9 * a[2]});
-        caseNearest(ELL, "middle_axis_inside", {a[0], a[1], a[2], 0, 0.3 * a[1], 0});
-        caseNearest(ELL, "symmetry_plane", {a[0], a[1], a[2], 0.1, 0.05, 0});
-        caseNearest(ELL, "symmetry_plane_xz_inside", {a[0], a[1], a[2], 0.2, 0, 0.1 * a[2]});
-        caseNearest(ELL, "symmetry_plane_outside", {a[0], a[1], a[2], 1.5 * a[0], 0.7 * a[1], 0});
+        // ---- ellipsoid (a > b > c): centre, axes and symmetry planes, inside / outside the evolute.
+        // From the second parameter set on the axes are permuted at random (review D: "always a > b > c"): the class names
+        // speak of the major / middle / minor axis, i.e. of the largest / middle / smallest radius, whichever coordinate it is.
+        int perm[3] = {0, 1, 2};
+        if (it > 0) { int k1 = g.below(3), k2 = g.below(2); std::swap(perm[2], perm[k1]); std::swap(perm[1], perm[k2]); vh::D(std::string("ell.degenerate.axis_permutation.") + char('0' + perm[0]) + char('0' + perm[1]) + char('0' + perm[2])); }
+        auto ELLn = [&](const char* cls, std::vector<double> v) {     // v = radii(3) query(3) in the sorted frame
+            std::vector<double> w(6); for (int i = 0; i < 3; ++i) { w[perm[i]] = v[i]; w[3 + perm[i]] = v[3 + i]; } caseNearest(ELL, cls, w); };
+        #define caseNearestELL(cls, ...) ELLn(cls, std::vector<double>(__VA_ARGS__))
+        caseNearestELL("center", {a[0], a[1], a[2], 0, 0, 0});
+        caseNearestELL("major_axis_inside_evolute", {a[0], a[1], a[2], 0.1 * (a[0] - a[1]*a[1]/a[0]) * 0.3, 0, 0});
+        caseNearestELL("major_axis_near_tip", {a[0], a[1], a[2], 0.98 * a[0], 0, 0});
+        caseNearestELL("major_axis_outside", {a[0], a[1], a[2], 1.7 * a[0], 0, 0});
+        caseNearestELL("minor_axis_inside", {a[0], a[1], a[2], 0, 0, 0.4 * a[2]});
+        caseNearestELL("minor_axis_outside", {a[0], a[1], a[2], 0, 0, 1.9 * a[2]});
+        caseNearestELL("middle_axis_inside", {a[0], a[1], a[2], 0, 0.3 * a[1], 0});
+        caseNearestELL("symmetry_plane", {a[0], a[1], a[2], 0.1, 0.05, 0});
+        caseNearestELL("symmetry_plane_xz_inside", {a[0], a[1], a[2], 0.2, 0, 0.1 * a[2]});
+        caseNearestELL("symmetry_plane_outside", {a[0], a[1], a[2], 1.5 * a[0], 0.7 * a[1], 0});
         caseNearest(ELL, "on_surface", cat({a[0], a[1], a[2]}, [&] { Vec3 u = rndUnit(g); return Vec3(a[0]*u[0], a[1]*u[1], a[2]*u[2]); }()));
         caseNearest(ELL, "sphere_radii", cat({r, r, r}, rndVec(g, 0.1, 3)));
         caseNearest(ELL, "spheroid_radii", cat({a[0], a[0], a[2]}, rndVec(g, 0.1, 3)));
+        // spheroids queried on the symmetry axis / in the equatorial plane (root of multiplicity 4 of the code's polynomial)
+        { double e = a[0], pl = a[2];      // oblate: (e, e, pl) with e > pl; prolate: (pl, pl, e)
+          caseNearestELL("oblate_spheroid_on_axis_inside", {e, e, pl, 0, 0, 0.5 * pl});
+          caseNearestELL("oblate_spheroid_on_axis_outside", {e, e, pl, 0, 0, 1.8 * pl});
+          caseNearestELL("oblate_spheroid_equatorial_plane_outside", {e, e, pl, 1.3 * e, 0.9 * e, 0});
+          caseNearestELL("oblate_spheroid_equatorial_plane_near_rim", {e, e, pl, 0.69 * e, 0.7 * e, 0});
+          caseNearestELL("prolate_spheroid_on_axis_outside", {pl, pl, e, 0, 0, 1.6 * e});
+          // between the centre of curvature of the tip (z = e - pl^2/e, the cusp of the evolute, where the code's polynomial has a
+          // root of multiplicity 6 and the root finder's accuracy drops to ~3e-4 L: observed, not flagged) and the tip
+          caseNearestELL("prolate_spheroid_on_axis_near_tip", {pl, pl, e, 0, 0, e - 0.4 * pl * pl / e});
+          caseNearestELL("prolate_spheroid_equatorial_plane_outside", {pl, pl, e, 1.4 * pl, -0.8 * pl, 0});
+          caseNearestELL("prolate_spheroid_generic", {pl, pl, e, 0.3 * pl, -0.4 * pl, 0.5 * e}); }
+        // rays nearly parallel to the half-space plane, on both sides of the code's threshold |d_x| < SignificantReal,
+        // and nearly parallel to the cylinder axis (0 < |d_xy| < 1e-3, replaced in the generic stream)
+        for (double dx : {3e-13, -3e-13, 1e-9, -1e-9, 1e-6}) { double dy = std::sqrt(1 - dx*dx); caseRay(HS, "nearly_parallel", {dx > 0 ? -1.0 : 1.0, 0.5, 0.2, dx, dy, 0}); }
+        for (double dx : {1e-15, -1e-16}) { double dy = std::sqrt(1 - dx*dx); caseRay(HS, "below_parallel_threshold", {dx > 0 ? -1.0 : 1.0, 0.5, 0.2, dx, dy, 0}); }
+        for (double e : {5e-4, 1e-5, 1e-7}) {
+            caseRay(CYL, "nearly_parallel_axis_inside", cat({r, 0.4 * r, 0.1 * r, z}, Vec3(UnitVec3(Vec3(e, 0.3 * e, 1)))));
+            caseRay(CYL, "nearly_parallel_axis_outside", cat({r, 1.5 * r, 0.2 * r, z}, Vec3(UnitVec3(Vec3(-e, -0.1 * e, -1))))); }
         caseRay(ELL, "from_center", cat({a[0], a[1], a[2], 0, 0, 0}, rndUnit(g)));
         caseRay(ELL, "along_axis", {a[0], a[1], a[2], -2 * a[0], 0, 0, 1, 0, 0});
         caseSupport(ELL, "axis_direction", {a[0], a[1], a[2], 0, 0, 1});
